@@ -206,8 +206,13 @@ def r03e(ctx, rep, cr):
             bad = []
             for ph in ('Prepared', 'Committing', 'Aborting'):
                 R = A.reachable_cp(f, [0], cut_edges=pa.cut_edges(ph) | ok)
-                if c.bb in R and not _ids_only_from_unreachable(f, defs, pa, ph, c):
+                if c.bb in R and not _ids_only_from_unreachable(f, defs, pa, ph, c) and not _ids_filtered_out(cr, f, defs, adt, ph, c):
                     bad.append(ph)
+            # a removal that hands the (undecided or aborting) transaction to the abort broadcaster is covered by the
+            # AbortIntent record that process_pending_aborts logs before sending (R13c) and recovery consumes (R13b)
+            if bad and 'Committing' not in bad and _queues_abort(f, defs, c):
+                rep.holds('R03e', f, 'remove#%d' % k, 'not reachable for Committing; queued for the abort broadcast (AbortIntent is the log record)')
+                continue
             if bad:
                 rep.violation('R03e', f, 'remove-unlogged', f.loc(c.line),
                               'a transaction in %s is removed from pending with no logged TxComplete: after a restart it is resurrected '
@@ -215,6 +220,57 @@ def r03e(ctx, rep, cr):
             else:
                 rep.holds('R03e', f, 'remove#%d' % k, 'after Ok TxComplete, or unreachable for logged phases')
     rep.floor('R03e', 'pending.remove sites', n, 7)
+
+
+def _ids_filtered_out(cr, f, defs, adt, phase, rem_call):
+    """cleanup_timeouts(): the removed ids are collected through Iterator::filter with a closure that
+    returns false for a transaction in `phase`."""
+    if len(rem_call.args) < 2 or rem_call.args[1][0] == 'k':
+        return False
+    sl = A.backward_slice(f, [rem_call.args[1]], defs)
+    for c in A.calls(f):
+        if c.dest[0] in sl.locals and re.search(r'Iterator::filter$|Iterator>::filter$', c.generic) and len(c.args) > 1 and c.args[1][0] != 'k':
+            cty = f.locals[c.args[1][1][0]]
+            for h in A.with_closures(cr.fns, f.name):
+                if h.name == f.name or h.locals[0] != 'bool':
+                    continue
+                d = A.single_def(defs, c.args[1][1][0])
+                if not (d and d[2] == 'st' and d[3][1][0] == 'agg' and d[3][1][1].endswith(h.name)):
+                    continue
+                pa = T.PhaseAssumption(h, adt)
+                if not pa.tests:
+                    continue
+                R = A.reachable_cp(h, [0], cut_edges=pa.cut_edges(phase))
+                trues = [i for i, b in enumerate(h.bbs) if not b['cleanup'] and any(st[0][0] == 0 and not st[0][1] and st[1] == ['use', ['k', 'true']] for st in b['s'])]
+                # `a && !matches!(..)` leaves the result of the last operand in _0: any assignment of a non-constant counts as "may be true"
+                nonconst = [i for i, b in enumerate(h.bbs) if not b['cleanup'] and i in R and any(st[0][0] == 0 and not st[0][1] and not (st[1][0] == 'use' and st[1][1][0] == 'k') for st in b['s'])]
+                if not any(i in R for i in trues) and not nonconst:
+                    return True
+    return False
+
+
+def _queues_abort(f, defs, rem_call):
+    pushes = []
+    for c in A.calls_to(f, ('re', r'Vec::<T, A>::push$')):
+        a = c.arg_local(0)
+        if a is None:
+            continue
+        fs, root = A.origin_fields(f, a, defs)
+        fs = A.place_fields(c.args[0][1]) + fs
+        if any(x.endswith('DistributedTxCoordinator.pending_aborts') for x in fs):
+            pushes.append(c)
+        else:
+            for g in A.guards(f, defs):
+                if g.local == root and any(x.endswith('DistributedTxCoordinator.pending_aborts') for x in g.lock_fields):
+                    pushes.append(c)
+    if not pushes:
+        return False
+    uses = A.Uses(f)
+    o = A.call_outcome(f, rem_call, uses)
+    starts = [t for (_, t) in o.ok] or ([rem_call.target] if rem_call.target is not None else [])
+    R = A.reachable(f, starts, cut_blocks={c.bb for c in pushes})
+    nexts = {c.bb for c in A.calls_to(f, ('re', r'Iterator>::next$'))}
+    return not any(r in R for r in A.return_blocks(f)) and not (nexts & R)
 
 
 def _ids_only_from_unreachable(f, defs, pa, phase, rem_call):
